@@ -56,9 +56,12 @@ OPEN = ("var", "?")
 OPEN_ATOMS = [
     ("mk1()", OPEN), ("mk(1)", tup(INT, OPEN)), ("mk(True)", tup(BOOL, OPEN)), ("idf(1)", INT), ("idf(mk1())", OPEN),
     ("(1, mk1())", tup(INT, OPEN)), ("mkarr()", arr(OPEN, 2)),
+    # ONE undetermined variable occurring twice in the argument's type
+    ("mk3((True,))", tup(tup(BOOL), OPEN, OPEN)), ("mk3(1)", tup(INT, OPEN, OPEN)),
 ]
 OPEN_DECLS = ("@guppy.declare\ndef mk1[B]() -> B: ...\n\n@guppy.declare\ndef mk[A, B](x: A) -> tuple[A, B]: ...\n\n"
-              "@guppy.declare\ndef idf[A](x: A) -> A: ...\n\n@guppy.declare\ndef mkarr[B]() -> array[B, 2]: ...\n\n")
+              "@guppy.declare\ndef idf[A](x: A) -> A: ...\n\n@guppy.declare\ndef mkarr[B]() -> array[B, 2]: ...\n\n"
+              "@guppy.declare\ndef mk3[A, B](x: A) -> tuple[A, B, B]: ...\n\n")
 
 # signatures: list of parameter types
 SIGS = {
@@ -72,7 +75,20 @@ SIGS = {
     "array-and-param": [arr(T, 2), T],
     "array-in-tuple": [tup(arr(T, 2), T)],
     "pair-of-two-vars-and-param": [tup(T, S), S],
+    "triple-with-repeated-var": [tup(tup(T), T, INT)],
+    "triple-two-vars": [tup(T, S, S)],
 }
+# generic FUNCTION VALUES as arguments (outside the first-order unifier above: verdicts by hand)
+HIGHER = [
+    ("apply(idf, 3)", True), ("apply(idf, True)", False), ("apply_r(3, idf)", True), ("apply_r(True, idf)", False),
+    ("apply(inc, 3)", True), ("apply(inc, True)", False), ("apply_pair(idf, (1, 2))", False),
+    ("applyc(inc, 3)", True), ("applyc(idf, 3)", True), ("applyc(inc, True)", False),
+]
+HIGHER_DECLS = ("from collections.abc import Callable\n\n@guppy.declare\ndef apply[T](f: Callable[[T], int], x: T) -> int: ...\n\n"
+                "@guppy.declare\ndef apply_r[T](x: T, f: Callable[[T], int]) -> int: ...\n\n@guppy.declare\ndef inc(x: int) -> int: ...\n\n"
+                "@guppy.declare\ndef twice[T](f: Callable[[T], T], g: Callable[[T], int], x: T) -> int: ...\n\n"
+                "@guppy.declare\ndef apply_pair[T](f: Callable[[T], int], x: T) -> int: ...\n\n"
+                "from guppylang.std.lang import Copy, Drop\n\n@guppy.declare\ndef applyc[T: (Copy, Drop)](f: Callable[[T], int], x: T) -> int: ...\n\n")
 
 
 def walk(t, s):
@@ -192,12 +208,33 @@ def run_item(item):
             gload.unload(mod)
 
 
+def run_higher(case):
+    from vlib import gload
+    call, exists = case
+    o, mod = gload.run_src(OPEN_DECLS + HIGHER_DECLS + f"@guppy\ndef main() -> None:\n    r = {call}\n")
+    try:
+        if o.kind == "crash":
+            return ("crash", exists, o.exc[:160])
+        if o.kind == "error":
+            return ("rejected", exists, o.title)
+        return ("invalid-hugr" if gload.validate(o.package) else "accepted", exists, "")
+    finally:
+        if mod is not None:
+            gload.unload(mod)
+
+
 def run_part(ctx):
     its = items()
     res = ctx.pmap(run_item, its, chunk=32)
     acc = rej = 0
     titles = {}
     und = {}
+    for case, (got, exists, detail) in zip(HIGHER, ctx.pmap(run_higher, HIGHER, chunk=2)):
+        if got in ("crash", "invalid-hugr"):
+            ctx.violation(f"b:{got}:function-value-argument", f"{case[0]}: {got}: {detail}", {"part": "b", "higher": list(case)})
+        elif (got == "accepted") != exists:
+            ctx.violation(f"b:{'accepted-without-instantiation' if got == 'accepted' else 'rejected-although-instantiation-exists'}:function-value-argument",
+                          f"{case[0]}: {got} ({detail}) although an instantiation {'exists' if exists else 'does not exist'}", {"part": "b", "higher": list(case)})
     for it, (got, exists, detail) in zip(its, res):
         sig, args, mode = it
         desc = f"callee[{', '.join(show(p) for p in SIGS[sig])}]({', '.join(a for a, _ in args)}) [{mode} arguments]"
@@ -225,6 +262,9 @@ def run_part(ctx):
 
 
 def replay(ctx, item):
+    if "higher" in item:
+        got, exists, detail = run_higher(tuple(item["higher"]))
+        return {"violation": got in ("crash", "invalid-hugr") or (got == "accepted") != exists, "got": got, "detail": detail}
     got, exists, detail = run_item(tuple(item["item"]))
     return {"violation": got in ("crash", "invalid-hugr") or (exists != "undetermined" and (got == "accepted") != exists),
             "got": got, "instantiation_exists": exists, "detail": detail,
